@@ -226,7 +226,7 @@ def positive_random(draw):
 
 @st.composite
 def negative_cases(draw):
-    kind = draw(st.sampled_from(["script-shaped", "key-as-text", "raw", "mut-b58", "mut-segwit", "unknown-b58-version", "pk-wrong-len-for-prefix", "pk-off-curve", "pk-x>=p", "pk-hybrid", "pk-bad-prefix", "b58-no-checksum", "segwit-wrong-hrp", "segwit-bad-proglen", "segwit-bad-proglen", "segwit-wrong-const", "segwit-bad-version", "segwit-nonzero-pad", "pk-coord-aliased", "b58-no-version", "segwit-mixed-case"]))
+    kind = draw(st.sampled_from(["script-shaped", "key-as-text", "raw", "mut-b58", "mut-segwit", "unknown-b58-version", "pk-wrong-len-for-prefix", "pk-off-curve", "pk-x>=p", "pk-hybrid", "pk-bad-prefix", "b58-no-checksum", "segwit-wrong-hrp", "segwit-bad-proglen", "segwit-bad-proglen", "segwit-wrong-const", "segwit-bad-version", "segwit-nonzero-pad", "segwit-overlong-pad", "pk-coord-aliased", "b58-no-version", "segwit-mixed-case"]))
     if kind == "segwit-mixed-case":
         # a valid address with the case rule broken: whole HRP in one case and whole data part in the other, or one letter flipped
         v = draw(st.integers(0, 16))
@@ -330,6 +330,12 @@ def negative_cases(draw):
             prog = draw(st.binary(min_size=20, max_size=20))
             data5 = [v] + rbech.to5(prog)
             spec = rbech.BECH32M
+        elif kind == "segwit-overlong-pad":
+            # one or two surplus all-zero groups before the checksum: 5 or more padding bits (BIP173: at most 4)
+            ln = draw(st.sampled_from([20, 32] if v == 0 else [2, 3, 10, 13, 18, 20, 32, 40]))
+            prog = draw(st.binary(min_size=ln, max_size=ln))
+            data5 = [v] + rbech.to5(prog) + [0] * draw(st.sampled_from([1, 1, 2]))
+            spec = rbech.BECH32 if v == 0 else rbech.BECH32M
         else:  # non-zero padding bits
             ln = draw(st.sampled_from([20, 32] if v == 0 else [2, 3, 20, 32, 38]))
             prog = draw(st.binary(min_size=ln, max_size=ln))
@@ -383,7 +389,7 @@ def _targets(tier):
                required=["nt:key-bytes-with-whitespace-or-nul-at-an-end", "nt:key-coordinate-in-n..p"]),
         Target("negative", check_negative, strategy=lambda tier: negative_cases(), budget={"quick": 5000, "thorough": 100000},
                required=["nt:pk-wrong-len-for-prefix", "nt:unknown-b58-version", "nt:mut-segwit", "nt:mut-b58", "nt:pk-hybrid", "expect-refuse",
-                         "nt:segwit-bad-proglen", "nt:segwit-wrong-const", "nt:segwit-bad-version", "nt:segwit-nonzero-pad", "nt:pk-coord-aliased", "nt:b58-no-version", "nt:segwit-mixed-case", "nt:script-shaped", "nt:key-as-text"]),
+                         "nt:segwit-bad-proglen", "nt:segwit-wrong-const", "nt:segwit-bad-version", "nt:segwit-nonzero-pad", "nt:segwit-overlong-pad", "nt:pk-coord-aliased", "nt:b58-no-version", "nt:segwit-mixed-case", "nt:script-shaped", "nt:key-as-text"]),
     ]
 
 
